@@ -841,7 +841,7 @@ def _check_database_structure(conn: sqlite3.Connection):
     """
     cursor = conn.cursor()
 
-    cursor.execute("BEGIN TRANSACTION;")
+    cursor.execute("BEGIN IMMEDIATE TRANSACTION;")
     cursor.execute("SELECT name FROM sqlite_master WHERE type='table' AND name='models'")
     table_exists = cursor.fetchone()
     table_correct = False
@@ -882,7 +882,7 @@ def _check_database_structure(conn: sqlite3.Connection):
 
     # For metadata we check if the table layout is correct, but also whether
     # the metadata keys exist.
-    cursor.execute("BEGIN TRANSACTION;")
+    cursor.execute("BEGIN IMMEDIATE TRANSACTION;")
     cursor.execute("SELECT name FROM sqlite_master WHERE type='table' AND name='metadata'")
     metadata_table_exists = cursor.fetchone()
     metadata_table_correct = False
